@@ -39,7 +39,13 @@ pub fn serve(run_line: fn(&str) -> String, panic_text: fn(Box<dyn std::any::Any 
     for line in stdin.lock().lines() {
         let line = line.unwrap();
         // bulk sampling commands legitimately run long
-        let this_limit = if line.starts_with("RANDBULK") { limit.max(20) * 30 } else if hangs >= 8 { 2 } else { limit };
+        let this_limit = if line.starts_with("RANDBULK") { limit.max(20) * 30 } else { limit };
+        // after three cases that never answered, the rest of this process' share is not run
+        // (the comparison leaves SKIPPED cases out; the hangs themselves are the finding)
+        if hangs >= 3 && !line.starts_with("RANDBULK") {
+            writeln!(out, "SKIPPED").unwrap();
+            continue;
+        }
         let s = if w.0.send(line).is_err() {
             w = spawn_worker(run_line, panic_text);
             "PANIC".to_string()
